@@ -16,7 +16,6 @@ import (
 	"context"
 	"errors"
 	"fmt"
-	"os"
 	"strings"
 	"sync"
 	"sync/atomic"
@@ -835,10 +834,6 @@ var theT *testing.T
 // (fake time only advances when every goroutine is blocked), and the watchdog goroutine a failed Start leaves
 // behind is drained (its timer fires in fake time) when the batch ends instead of piling up.
 func bubble(f func()) {
-	if os.Getenv("C20_NOBUBBLE") != "" {
-		f()
-		return
-	}
 	synctest.Test(theT, func(*testing.T) {
 		f()
 		// fake time stops with the bubble's main goroutine: let the start watchdogs of failed Starts expire first
@@ -884,7 +879,6 @@ func silence() {
 }
 
 func body(c *vk.Ctx) {
-	defer startProf()()
 	silence()
 	if c.Replay != "" {
 		replay(c)
